@@ -208,7 +208,8 @@ def strictlyBetween (z1 z2 z : α) : Bool := (Num.lt z1 z && Num.lt z z2) || (Nu
 /-- `arc_special_point_in_pc_same_quarter` -/
 def arcSpecialPointInPcSameQuarter (debug : Bool) (p1 p2 : Coo α) (zEpsMax : α) (nIterMax : Nat) :
     Option (Option (α × α)) :=
-  if debug && !(Num.lt p1.lon p2.lon) then none else
+  -- since the repairs of F16: `debug_assert!(p1.lon() <= p2.lon() || p2.lon() == 0.0)` (an arc may follow a meridian; lon = 0 stands for 2π)
+  if debug && !(Num.le p1.lon p2.lon || eqZero p2.lon) then none else
   let p2Mod0 := Num.rem p2.lon (Num.halfPi : α)
   let p2Mod := if eqZero p2Mod0 then (Num.halfPi : α) else p2Mod0
   match fromSphCoo debug (Num.rem p1.lon (Num.halfPi : α)) p1.lat, fromSphCoo debug p2Mod p2.lat with
@@ -284,23 +285,27 @@ def arcSpecialPointInPc (debug : Bool) (p1' p2' : Coo α) (zEpsMax : α) (nIterM
             match (intersectPointPc debug p1 p2 p2p1n n2).bind (fromVec3 debug) with
             | none => none
             | some intersect2 =>
-              if debug && !(Num.lt p2.lon intersect2.lon) then none
+              if debug && !(Num.lt p2.lon intersect2.lon || eqZero intersect2.lon) then none
               else arcSpecialPointInPcSameQuarter debug p2 intersect2 zEpsMax nIterMax
         else some none
       match resZ2 with
       | none => none
       | some resZ2 =>
+        -- `if p1.lon() % HALF_PI > 0.0` (second repair): p1 on the bound of its quarter = empty part
+        if !(Num.gt m1 (Num.zero : α)) then some resZ2 else
         if debug && !(q1 < 3) then none else
-        let n1y := q1 % 2
-        match axisCoo (α := α) debug (n1y ^^^ 1) n1y with
+        -- since the repair of F16: the plane of the LOWER bound of the quarter of p1 (as in the last-quarter code of the
+        -- non-crossing branch), and the sub-arc is [intersect1, p1]
+        let n1x := q1 % 2
+        match axisCoo (α := α) debug n1x (n1x ^^^ 1) with
         | none => none
         | some n1 =>
           match (intersectPointPc debug p1 p2 p2p1n n1).bind (fromVec3 debug) with
           | none => none
           | some intersect1 =>
-            if debug && !(Num.lt p1.lon intersect1.lon) then none
+            if debug && !(Num.lt intersect1.lon p1.lon) then none
             else
-              match arcSpecialPointInPcSameQuarter debug p1 intersect1 zEpsMax nIterMax with
+              match arcSpecialPointInPcSameQuarter debug intersect1 p1 zEpsMax nIterMax with
               | none => none
               | some resZ1 => some (if resZ1.isSome then resZ1 else resZ2)
     else
@@ -321,6 +326,8 @@ def arcSpecialPointInPc (debug : Bool) (p1' p2' : Coo α) (zEpsMax : α) (nIterM
       match resZ1 with
       | none => none
       | some resZ1 =>
+        -- `if p2.lon() % HALF_PI > 0.0` (second repair): p2 on the bound of its quarter = empty part
+        if !(Num.gt m2 (Num.zero : α)) then some resZ1 else
         if debug && !(q2 > 0) then none else
         let n2x := q2 % 2
         match axisCoo (α := α) debug n2x (n2x ^^^ 1) with
